@@ -118,6 +118,17 @@ def run(s):
              ["tasks.PhononContributionTaskList.calculate", "tasks.PhononContributionTask.get_modulus_adiabatic",
               "tasks.PhononContributionTask.get_modulus_isothermal"], kind="finite")
     s.canary("C02.canary.shear_differs_if_fed_adiabatic", lambda: shear_tasks(tier, perturbed=True))
+    def calculate_ob():
+        # tasks.py is one of this property's anchored files: calculate() stores, for every task, the adiabatic value of ITS contribution (isothermal + gap for i, j <= 3; for a
+        # shear task the solver applied to the ISOTHERMAL results of its dependencies) -- the loop-rule obligation of C04, registered here with the value-level replay
+        from props import C04
+        out = C04.calculate_loop_rule(tier)
+        return out[0] if isinstance(out, tuple) else out
+
+    def calculate_fb():
+        from props import C04
+        return C04.native_plumbing_values()
+    s.oblige("C02.tasks.calculate_stores_each_task's_own_adiabatic_value(loop rule)", calculate_ob, ["tasks.PhononContributionTaskList.calculate"], fallback=calculate_fb)
     s.oblige("C02.heat_capacity_forwarding", heat_capacity, ["qha_adapter.QHAVolumeBaseInterface.heat_capacity"], kind="finite")
     if s.tier == "thorough":
         from vf import lean
